@@ -8,6 +8,8 @@ mod c06;
 mod c07;
 mod c08;
 mod c10;
+mod c11;
+mod c12;
 mod c13;
 mod selectors;
 mod interp;
@@ -75,6 +77,8 @@ fn main() {
             "C06" => c06::replay(&v["replay"]),
             "C08" => c08::replay(&v["replay"]),
             "C13" => c13::replay(&v["replay"]),
+            "C12" => c12::replay(&v["replay"]),
+            "C11" => c11::replay(&v["replay"]),
             "C10" => c10::replay(&v["replay"]),
             "C01" => c01::replay(c01::Mode::C01, &v["replay"]),
             "C02" => c01::replay(c01::Mode::C02, &v["replay"]),
@@ -94,6 +98,8 @@ fn main() {
         "C06" => c06::run(&mut run),
         "C08" => c08::run(&mut run),
         "C13" => c13::run(&mut run),
+        "C12" => c12::run(&mut run),
+        "C11" => c11::run(&mut run),
         "C10" => c10::run(&mut run),
         "C01" => c01::run(c01::Mode::C01, &mut run),
         "C02" => c01::run(c01::Mode::C02, &mut run),
